@@ -68,12 +68,16 @@ def check(ctx: Ctx) -> None:
         "PURE the inputs are only read (fresh working list; only non-mutating methods are called on input sequences); "
         "SPLIT the boundary handling of RelativeSequence.split that the bars inherit: channel-and-pitch keyed open notes (KEY2), a cut "
         "wait conserves time (CUT), notes cut at a bar line are closed and re-struck with the open note's channel, pitch and velocity "
-        "(RESTRIKE) -- the same rules as C08. "
+        "(RESTRIKE) -- the same rules as C08; BAR the constructor every bar goes through compares and pads in consistent units to "
+        "numerator*4/denominator and rewrites the single leading signature (rules UNIT1/CAP/UNIT2/SIG of C10). "
         "Not decided: bar durations as numbers, coverage bound, sound conservation.")
     ctx.assumptions += ["RelativeSequence.split is pure and returns fresh pieces (C08, C16)", "signature changes lie on bar boundaries (hypothesis of the property)"]
     # bar splitting is built on RelativeSequence.split: its boundary handling decides whether the bars reproduce the music
     from .c08 import split_rules
     split_rules(ctx, {"KEY", "CUT", "RESTRIKE"})
+    # ... and every bar is made by Bar.__init__: capacity test, padding and the single leading signature (rules of C10)
+    from .c10 import bar_rules
+    bar_rules(ctx)
     params = fi.params
     inp = params[0]
     loop = next((n for n in fi.node.body if isinstance(n, ast.While)), None)
